@@ -283,6 +283,29 @@ def opFiles (j : Json) : Json :=
       (s', acc.2 ++ [jsonOfStore s' names])) (init, [])
   Json.mkObj [("after", Json.arr states.2.toArray)]
 
+/-! op `paths`: a list of csvpath texts (each as [codepoint, isalnum, isspace] triples) → the group
+    file, what `_get_named_paths` reads back, the identities, and the selections for `ident` -/
+def opPaths (j : Json) : Json :=
+  let paths : List Meta.MStr := (getArr j "paths").toList.map (fun p => match p with
+    | .arr a => a.toList.map mcharOfJson
+    | _ => [])
+  let strs : List Paths.Str := paths.map (fun p => p.map (·.c))
+  let group := Paths.strFromList strs
+  let back := Paths.getNamedPaths group
+  let idOf := fun (p : Meta.MStr) =>
+    let pk := Meta.extract (Meta.strip p)
+    let kc := Meta.strip pk.2
+    let fields := (Meta.collect kc).map (fun kv => (kv.1.map (·.c), kv.2.map (fun v => v.map (·.c))))
+    if kc.isEmpty then some [] else Paths.identityOf fields
+  let ids := paths.map idOf
+  let g : Paths.Identified := (ids.zip (if back.length == strs.length then back else strs)).map (fun x => (x.1.getD [], x.2))
+  let ident := (getStr j "ident").toList
+  let js := fun (l : List Paths.Str) => Json.arr (l.map (fun x => toJson (String.ofList x))).toArray
+  Json.mkObj [("group", toJson (String.ofList group)), ("back", js back),
+    ("ids", Json.arr (ids.map (fun i => match i with | some v => toJson (String.ofList v) | none => Json.null)).toArray),
+    ("one", match Paths.findOne g ident with | some v => toJson (String.ofList v) | none => Json.null),
+    ("to", js (Paths.getTo g ident)), ("from", js (Paths.getFrom g ident))]
+
 def handle (line : String) : Json :=
   match Json.parse line with
   | .error e => Json.mkObj [("error", toJson s!"bad-json: {e}")]
@@ -295,6 +318,7 @@ def handle (line : String) : Json :=
     else if op == "assign" then opAssign j
     else if op == "policy" then opPolicy j
     else if op == "files" then opFiles j
+    else if op == "paths" then opPaths j
     else Json.mkObj [("error", toJson s!"bad-op: {op}")]
 
 partial def loop (h : IO.FS.Stream) (out : IO.FS.Stream) : IO Unit := do
